@@ -1,0 +1,19 @@
+//go:build verif
+
+package nodevalidation
+
+// Machine-checked contracts (govc, see /verif/DESIGN.md). Comment-only file.
+
+// ---- C38: the composite validator accepts a node only if EVERY configured validator
+// accepted it (loop invariant over the validator list).
+//@ ghost pred accepted(v any) bool
+//@ callrule composite_element_fact in (*CompositeValidator).Verify
+//@   property C38
+//@   callee (netmap.NodeValidator).Verify
+//@   pureeffect
+//@   defines err == nil ==> accepted(self)
+//@ func (*CompositeValidator).Verify
+//@   property C38
+//@   valid c != nil
+//@   loop 1 invariant forall k int :: 0 <= k && k <= rangeindex ==> accepted(c.validators[k])
+//@   ensures [nil_only_if_every_validator_accepted] err == nil ==> (forall k int :: 0 <= k && k < len(c.validators) ==> accepted(c.validators[k]))
